@@ -18,6 +18,9 @@ type Spec struct {
 	Tier     string `json:"tier"`
 	Strategy string `json:"strategy"`
 	Free     bool   `json:"free,omitempty"` // uncontrolled fallback mode
+	// Siblings: the pool contains objects with equal geometry and different
+	// configuration (audited in a fresh process more often).
+	Siblings bool `json:"siblings,omitempty"`
 
 	Knobs     Knobs               `json:"knobs"`
 	Pool      []Recipe            `json:"pool"`
